@@ -22,7 +22,9 @@ from . import C04 as rel
 RULE = ("random lists of 1..5 materials (nested structures of depth 0..2 over atoms with data incl. "
         "ions and energy-dependent isotopes; 12% lists of one atom whose σ_i clips at 0; 30% lists with a repeated material; 6% with an atom "
         "without data), weights >= 0 with zeros forced in 35% and all-zero in 5%, density log-uniform "
-        "or 0 (5%), wavelength scalar / length-1 / length-n vector; non-trivial when >= 2 materials "
+        "or 0 (5%), wavelength scalar / length-1 / length-n vector, in 12% the wavelength argument omitted or the module "
+        "constant ABSORPTION_WAVELENGTH (direct calculation at 1.798); for a third of the cases the materials once more "
+        "from a private table next to the public ones, direct value also through Formula.neutron_sld; non-trivial when >= 2 materials "
         "and the result is neither zeros nor (None, None, None); distinct by canonical input")
 
 
@@ -77,7 +79,12 @@ def gen_case(rng, pools):
     else:
         # whole-number wavelengths (given as a list of ints or an integer array below)
         mode, ws = "vector", [float(rng.randint(1, 12)) for _ in range(rng.randint(1, 5))]
-    return dict(materials=mats, weights=weights, density=density, mode=mode, ws=ws)
+    case = dict(materials=mats, weights=weights, density=density, mode=mode, ws=ws)
+    if rng.random() < 0.12:
+        # the calculator built without a wavelength argument ("wavelength = 1.798", the documented default), or with the
+        # module constant passed through: the direct calculation at 1.798 A
+        case.update(mode="scalar", ws=[1.798], omit=rng.choice(["omitted", "constant"]))
+    return case
 
 
 _REVISED = []
@@ -139,8 +146,13 @@ def eval_real(pt, case):
             pick = zlib.crc32(repr(case["materials"]).encode()) % 3
             warg = [warg, [int(w) for w in ws], np.array([int(w) for w in ws], dtype=np.int64)][pick]
     out = {}
+    omit = case.get("omit")
+    if omit:
+        warg = 1.798
     try:
-        calc = nsf.neutron_composite_sld(ms, wavelength=warg)
+        calc = nsf.neutron_composite_sld(ms) if omit == "omitted" else \
+            nsf.neutron_composite_sld(ms, wavelength=nsf.ABSORPTION_WAVELENGTH) if omit == "constant" else \
+            nsf.neutron_composite_sld(ms, wavelength=warg)
         res = calc(np.array(case["weights"], dtype=float), density=case["density"])
         out["calc_raw"] = res
     except TypeError as e:
@@ -223,16 +235,21 @@ def eval_real(pt, case):
                 r3 = calc3(np.array(wts, dtype=float), density=case["density"])
                 mix3 = functools.reduce(operator.add, [w * m for w, m in zip(wts, order)])
                 d3 = nsf.neutron_sld(mix3, density=case["density"], wavelength=warg)
-                if (r3[0] is None) != (d3[0] is None):
-                    out["mixed"] = "composite %r, direct %r" % (r3[0] is None, d3[0] is None)
+                # the same direct calculation through the method of the summed formula
+                mix3.density = case["density"]
+                d4 = mix3.neutron_sld(wavelength=warg)
+                if (r3[0] is None) != (d3[0] is None) or (r3[0] is None) != (d4 is None or d4[0] is None):
+                    out["mixed"] = "composite %r, direct %r, Formula.neutron_sld %r" % (
+                        r3[0] is None, d3[0] is None, d4 is None or d4[0] is None)
                 elif r3[0] is not None:
                     a = [np.broadcast_to(np.asarray(v, dtype=float), (n,)) for v in r3]
-                    b = [np.broadcast_to(np.asarray(v, dtype=float), (n,)) for v in d3]
-                    for i in range(n):
-                        for j in range(2):
-                            if not close(float(a[j][i]), float(b[j][i]), rel=1e-8, abs_=1e-12 * (1 + abs(float(b[0][i])))):
-                                out["mixed"] = "component %d at wavelength %d: composite %r, direct %r" % (
-                                    j, i, float(a[j][i]), float(b[j][i]))
+                    for label, dd in (("direct", d3), ("Formula.neutron_sld of the weighted sum", d4)):
+                        b = [np.broadcast_to(np.asarray(v, dtype=float), (n,)) for v in dd]
+                        for i in range(n):
+                            for j in range(2):
+                                if not close(float(a[j][i]), float(b[j][i]), rel=1e-8, abs_=1e-12 * (1 + abs(float(b[0][i])))):
+                                    out["mixed"] = "component %d at wavelength %d: composite %r, %s %r" % (
+                                        j, i, float(a[j][i]), label, float(b[j][i]))
         except Exception as e:  # noqa
             out["mixed"] = "raises %s: %s" % (type(e).__name__, e)
     atoms = nc.atoms_of(mix)
@@ -358,6 +375,12 @@ FIXED = [
     dict(materials=[[(2, (1, 0, 0)), (1, (8, 0, 0))]], weights=[1.0], density=0.0, mode="scalar", ws=[1.0]),
     dict(materials=[[(2, (1, 0, 0)), (1, (8, 0, 0))], [(2, (1, 0, 0)), (1, (8, 0, 0))]], weights=[0.25, 0.75],
          density=1.0, mode="vector", ws=[1.798]),
+    # the wavelength argument omitted / the module constant: 1.798 A, energy-dependent atoms included
+    dict(materials=[[(2, (64, 0, 0)), (3, (8, 0, 0))], [(2, (1, 0, 0)), (1, (8, 0, 0))]], weights=[1.0, 10.0],
+         density=1.5, mode="scalar", ws=[1.798], omit="omitted"),
+    dict(materials=[[(1, (62, 149, 0))], [(2, (1, 2, 0)), (1, (8, 0, 0))]], weights=[1.0, 4.0],
+         density=2.0, mode="scalar", ws=[1.798], omit="constant"),
+    dict(materials=[[(2, (1, 0, 0)), (1, (8, 0, 0))]], weights=[1.0], density=1.0, mode="scalar", ws=[1.798], omit="omitted"),
 ]
 
 
